@@ -243,23 +243,29 @@ Proof.
   - unfold in_i64, two63. split; [discriminate|reflexivity].
 Qed.
 
+(* what the examples look at: addressee, TotalLag, the CurrentLags and the newest reported commit offsets (no float32 field) *)
+Definition ex_observe (reader_ok : bool) : option (Z * Z * bool * option (Z * list Z * list (option Z))) :=
+  match pipe_run ex_name (ex_pc reader_ok) 2 ex_events with
+  | Some (ps, _, _) =>
+      match pipe_step ex_name (ex_pc reader_ok) ps (StatusRequest 1 WireRoundtripProofs.b_testgroup true) with
+      | Some (_, [OStatus c g sa r]) =>
+          Some (c, g, sa, option_map (fun gs => (gs_totallag gs, map ps_lag (gs_partitions gs),
+                                                 map (fun p => option_map co_offset (ps_end p)) (gs_partitions gs))) r)
+      | _ => None
+      end
+  | None => None
+  end.
+
 (* the status served afterwards: 12 partitions, partition 11 carries the commit and CurrentLag 9000 - 8372 = 628 = TotalLag *)
 Example PIPE_ex_lag :
-  exists ps outs h gs ps',
-    pipe_run ex_name (ex_pc true) 2 ex_events = Some (ps, outs, h) /\
-    pipe_step ex_name (ex_pc true) ps (StatusRequest 1 WireEnc.b_testgroup true) = Some (ps', [OStatus 1 116 true (Some gs)]) /\
-    gs_totallag gs = 628 /\ map ps_lag (gs_partitions gs) = [0; 0; 0; 0; 0; 0; 0; 0; 0; 0; 0; 628] /\
-    last_answer ex_name (ex_pc true) (pinit (ex_pc true) 2) ex_events 1 116 11 = Some 9000 /\
-    map (fun p => option_map co_offset (ps_end p)) (gs_partitions gs)
-      = [None; None; None; None; None; None; None; None; None; None; None; Some 8372].
-Proof. vm_compute. do 5 eexists. repeat split. Qed.
+  ex_observe true = Some (1, 116, true, Some (628, [0; 0; 0; 0; 0; 0; 0; 0; 0; 0; 0; 628],
+                          [None; None; None; None; None; None; None; None; None; None; None; Some 8372])) /\
+  last_answer ex_name (ex_pc true) (pinit (ex_pc true) 2) ex_events 1 116 11 = Some 9000.
+Proof. split; vm_compute; reflexivity. Qed.
 
 (* the same life with a reader whose lists reject the group: the 404 answer *)
-Example PIPE_ex_rejected :
-  exists ps outs h ps',
-    pipe_run ex_name (ex_pc false) 2 ex_events = Some (ps, outs, h) /\
-    pipe_step ex_name (ex_pc false) ps (StatusRequest 1 WireEnc.b_testgroup true) = Some (ps', [OStatus 1 116 true None]).
-Proof. vm_compute. do 4 eexists. split; reflexivity. Qed.
+Example PIPE_ex_rejected : ex_observe false = Some (1, 116, true, None).
+Proof. vm_compute. reflexivity. Qed.
 
 (* the commit cut one byte short is ignored: the run is the run without it *)
 Example PIPE_ex_truncated :
